@@ -17,6 +17,10 @@ second line</xs:documentation></xs:annotation><xs:restriction base="xs:string"><
 <xs:simpleType name="ShortCode"><xs:restriction base="tns:Code"/></xs:simpleType>
 <xs:simpleType name="Qty"><xs:restriction base="xs:int"><xs:minInclusive value="1"/><xs:maxExclusive value="10"/></xs:restriction></xs:simpleType>
 <xs:complexType name="Line"><xs:sequence><xs:element name="code" type="tns:Code"/><xs:element name="qty" type="tns:Qty" minOccurs="0" maxOccurs="unbounded"/></xs:sequence><xs:attribute name="id" type="xs:string" use="required"/></xs:complexType>
+<xs:complexType name="Tagged"><xs:annotation><xs:documentation>documentation of an attribute-only type
+with a second line and a third: Grüße</xs:documentation></xs:annotation><xs:attribute name="tag" type="xs:string"/></xs:complexType>
+<xs:complexType name="Derived"><xs:complexContent><xs:annotation><xs:documentation>documentation inside complexContent
+second line</xs:documentation></xs:annotation><xs:extension base="tns:Line"><xs:sequence><xs:element name="extra" type="xs:string"/></xs:sequence></xs:extension></xs:complexContent></xs:complexType>
 <xs:element name="Req"><xs:complexType><xs:sequence><xs:element name="line" type="tns:Line"/></xs:sequence></xs:complexType></xs:element>
 <xs:element name="Resp" type="tns:Line"/>
 <xs:element name="Hdr" type="tns:Code"/>
